@@ -231,7 +231,7 @@ pub fn replay(case: &Value) -> Result<String, String> {
 pub fn plan(tier: Tier) -> Plan {
     let mut p = Plan::new("C14", "exploration");
     let thorough = tier.thorough();
-    p.rule = "counting allocator, per-thread. (1) exhaustive in small scopes: for every FST of all subsets of U_ab3 (values 3i+1) and of the fan-out families: (a) Fst::new/Map::new/Set::new over borrowed bytes and every get/contains_key/contains of the probe closure perform ZERO allocations (allocation count); (b) stream(), every range (all kind pairs x bound keys of length <= 2; large sets <= 1) and three automaton searches: live heap after EVERY next() <= heap before construction + 256 + 256*(L+2) + 4*(L+16); (c) union/intersection/difference/symmetric_difference over k = 2..4 FST-backed streams (the FST, its even- and odd-indexed halves, itself): live heap after every next() <= before + 256 + k*(stream bound + 2*max(L,64) + 512). (2) finite ladder (not exhaustive): FSTs of N = 1e4, 1e5 (thorough 1e6) 8-byte keys: full stream/range/search, k = 2..8 way operations over partially overlapping FSTs, and operations over 2-4 identical and over disjoint FSTs (long runs in which nothing is emitted): max extra heap identical (+-256 B) for all N. non-trivial = traversals yielding >= 2 items".into();
+    p.rule = "counting allocator, per-thread. (1) exhaustive in small scopes: for every FST of all subsets of U_ab3 and U_raw2 (values 3i+1), of the fan-out families and of the 256-byte label family: (a) Fst::new/Map::new/Set::new over borrowed bytes and every get/contains_key/contains of the probe closure perform ZERO allocations (allocation count); (b) stream(), every range (all kind pairs x bound keys of length <= 2; large sets <= 1) and three automaton searches: live heap after EVERY next() <= heap before construction + 256 + 256*(L+2) + 4*(L+16); (c) union/intersection/difference/symmetric_difference over k = 2..4 FST-backed streams (the FST, its even- and odd-indexed halves, itself): live heap after every next() <= before + 256 + k*(stream bound + 2*max(L,64) + 512). (2) finite ladder (not exhaustive): FSTs of N = 1e4, 1e5 (thorough 1e6) 8-byte keys: full stream/range/search, k = 2..8 way operations over partially overlapping FSTs, and operations over 2-4 identical and over disjoint FSTs (long runs in which nothing is emitted): max extra heap identical (+-256 B) for all N. non-trivial = traversals yielding >= 2 items".into();
     p.assumptions = vec![
         "'for all N' beyond the ladder is not decided; transient per-item allocations that are freed again do not violate the property as stated".into(),
         "memory of user-supplied streams is outside the property".into(),
@@ -303,6 +303,28 @@ pub fn plan(tier: Tier) -> Plan {
             }
         }));
     }
+    // keys over uncommon bytes (explicit input bytes in single-transition
+    // nodes): label family and all subsets of U_raw2
+    p.units.push(unit("label-family-and-U_raw2-zero-alloc-and-streaming", "uncommon labels".into(), move |st, rep| {
+        let mut inputs: Vec<Vec<Kv>> = label_family().into_iter().map(|x| x.1).collect();
+        let u = u_raw2();
+        for mask in 0..(1u64 << u.keys.len()) {
+            inputs.push(Pat::Lin3.apply(&select(&u.keys, mask)));
+        }
+        for kvs in inputs {
+            let keys: Vec<Key> = kvs.iter().map(|x| x.0.clone()).collect();
+            let l = keys.iter().map(|k| k.len()).max().unwrap_or(0);
+            let bytes = match front::build(Front::RawInsert, (3, 3), &kvs) { Ok(b) => b, Err(_) => continue };
+            let case = || json!({"kvs": kvs_json(&kvs)});
+            match run_zero_alloc(&bytes, &probe_closure(&keys, &[0x00, b'a', 0x7f, 0xff])) {
+                Ok(n) => { st.evals += n; st.count("zero_alloc_calls", n); }
+                Err(msg) => rep.violation(format!("alloc {}", kvs_str(&kvs)), msg, case()),
+            }
+            if let Err(msg) = run_streams(&bytes, l, &[vec![0x7f], vec![0xff, 0x00]]) {
+                rep.violation(format!("stream {}", kvs_str(&kvs)), msg, case());
+            }
+        }
+    }));
     // ladder
     let ns: Vec<u64> = if thorough { vec![10_000, 100_000, 1_000_000] } else { vec![10_000, 100_000] };
     let table: Arc<Mutex<BTreeMap<(usize, u64), i64>>> = Arc::new(Mutex::new(BTreeMap::new()));
